@@ -147,6 +147,12 @@ func osProp(k *verifkit.Kit) func(c osCase) error {
 		if len(ips) != len(c.Addrs) {
 			return verifkit.Violf("OS/address-count", "kernel listed %d addresses, addresser returned %d", len(c.Addrs), len(ips))
 		}
+		// (the listing is compared as a multiset: nothing obliges the addresser to keep the kernel's order - the plugins'
+		// results do not depend on it, which is what C13 and C14 say)
+		gotIPs := map[IP]int{}
+		for _, ip := range ips {
+			gotIPs[ip]++
+		}
 		for i, x := range c.Addrs {
 			want := IP{
 				Address:                  netip.PrefixFrom(netip.MustParseAddr(x.Addr), int(x.Bits)),
@@ -157,9 +163,10 @@ func osProp(k *verifkit.Kit) func(c osCase) error {
 				StablePrivacy:            x.Flags&0x800 != 0, // IFA_F_STABLE_PRIVACY
 				ValidForever:             x.Valid == math.MaxUint32,
 			}
-			if ips[i] != want {
-				return verifkit.Violf("OS/address-flags-mapping", "address %d (%s/%d flags %#x valid %d): want %+v got %+v", i, x.Addr, x.Bits, x.Flags, x.Valid, want, ips[i])
+			if gotIPs[want] == 0 {
+				return verifkit.Violf("OS/address-flags-mapping", "address %d (%s/%d flags %#x valid %d): want %+v, the addresser returned %+v", i, x.Addr, x.Bits, x.Flags, x.Valid, want, ips)
 			}
+			gotIPs[want]--
 		}
 		var rts []Route
 		defaults := 0
@@ -189,14 +196,20 @@ func osProp(k *verifkit.Kit) func(c osCase) error {
 		if len(rts) != len(routes) {
 			return verifkit.Violf("OS/route-count", "kernel listed %d routes, addresser returned %d", len(routes), len(rts))
 		}
+		gotRts := map[string]int{}
+		for _, rt := range rts {
+			gotRts[fmt.Sprintf("%v %d %d", rt.Prefix, rt.Index, int(rt.Preference))]++
+		}
 		for i, x := range routes {
 			pref := 0
 			if x.Pref >= 0 {
 				pref = x.Pref
 			}
-			if got, want := fmt.Sprintf("%v %d %d", rts[i].Prefix, rts[i].Index, int(rts[i].Preference)), fmt.Sprintf("%v %d %d", netip.PrefixFrom(netip.MustParseAddr(x.Dst), int(x.Bits)), x.OutIf, pref); got != want {
-				return verifkit.Violf("OS/route-mapping", "route %d: want %s got %s", i, want, got)
+			want := fmt.Sprintf("%v %d %d", netip.PrefixFrom(netip.MustParseAddr(x.Dst), int(x.Bits)), x.OutIf, pref)
+			if gotRts[want] == 0 {
+				return verifkit.Violf("OS/route-mapping", "route %d: want %s, the addresser returned %v", i, want, rts)
 			}
+			gotRts[want]--
 		}
 		wantReq := []string{fmt.Sprintf("addr family=%d index=%d", unix.AF_INET6, c.Index), fmt.Sprintf("route family=%d oif=%d table=%d", unix.AF_INET6, c.Index, unix.RT_TABLE_MAIN)}
 		if c.Errno != "" {
